@@ -20,4 +20,6 @@ def check(ctx, rep):
     _dim.dim_1(ctx, rep)     # child positions are never computed from amounts of text
     from ..rules import dar as _loop1
     _loop1.loop_1(ctx, rep, ['parso/python/tree.py', 'parso/tree.py'])      # a value computed for one element of a loop is not used for the next one
+    from ..rules import shape as _brk1
+    _brk1.brk_1(ctx, rep)       # a loop over children that breaks on a type mismatch does not lose a later child of the wanted type
     rep.note('Not decided: the comparison with CPython\'s ast over all programs.')
